@@ -118,6 +118,10 @@ func (ro *c13Roles) computeChanAliases(n *types.Named) {
 
 type c13Roles struct {
 	p *Prog
+	// fields of the request that are set (non-zero) only by the entry point that
+	// carries a context (RLock): "has a context" indicators; and only by the one
+	// that does not (Lock): "writer" indicators
+	holdCtxInd, holdWriterInd map[FieldID]bool
 
 	// fifo.Mutex
 	fifoMutex *types.Named
@@ -414,7 +418,8 @@ func resolveC13Roles(p *Prog) *c13Roles {
 		return isStruct
 	})
 	ro.hold = c13NamedOrigin(c13ChanElem(c13FieldType(ro.oc, ro.ocReq)))
-	ro.holdWrite = ro.oneField(ro.hold, "write flag of the hold request", c13IsBoolT)
+	ro.holdWrite = ro.writeFlagField()
+	ro.computeHoldIndicators()
 	ro.holdCtx = ro.oneField(ro.hold, "reader context of the hold request", func(t types.Type) bool { return namedKey(t) == "context.Context" })
 	ro.holdResp = ro.oneField(ro.hold, "response channel of the hold request", c13IsChan)
 	ro.resp = c13NamedOrigin(c13ChanElem(c13FieldType(ro.hold, ro.holdResp)))
@@ -557,4 +562,98 @@ func c13Deref(t types.Type) types.Type {
 		return p.Elem()
 	}
 	return t
+}
+
+// writeFlagField: the boolean field of the request that says "writer". With a
+// single boolean field that is it; otherwise it is the one that the exported
+// writer entry point (OuterCancel.Lock, no context) sets to true and the
+// reader entry point (RLock) does not.
+func (ro *c13Roles) writeFlagField() FieldID {
+	cands := ro.someFields(ro.hold, c13IsBoolT)
+	if len(cands) == 1 {
+		return cands[0]
+	}
+	setTrue := func(root *ssa.Function) map[FieldID]bool {
+		out := map[FieldID]bool{}
+		seen := map[*ssa.Function]bool{}
+		var walk func(fn *ssa.Function, depth int)
+		walk = func(fn *ssa.Function, depth int) {
+			if fn == nil || seen[fn] || depth > 3 {
+				return
+			}
+			seen[fn] = true
+			allInstrs(fn, func(in ssa.Instruction) {
+				switch x := in.(type) {
+				case *ssa.Store:
+					if fa, ok := x.Addr.(*ssa.FieldAddr); ok && c13IsConstBool(x.Val, true) {
+						out[fieldIDOfAddr(fa)] = true
+					}
+				case ssa.CallInstruction:
+					if cal := staticCallee(x); cal != nil && ro.p.InModule(cal) {
+						walk(cal, depth+1)
+					}
+				}
+			})
+		}
+		walk(root, 0)
+		return out
+	}
+	w, r := setTrue(ro.methodFn(ro.oc, "Lock")), setTrue(ro.methodFn(ro.oc, "RLock"))
+	var hits []FieldID
+	for _, c := range cands {
+		if w[c] && !r[c] {
+			hits = append(hits, c)
+		}
+	}
+	if len(hits) != 1 {
+		undecided("role \"write flag of the hold request\" resolves to %d fields among %v (expected exactly one set to true by Lock only)", len(hits), cands)
+	}
+	return hits[0]
+}
+
+// computeHoldIndicators classifies the fields of the request by which
+// exported entry point stores a non-zero value into them.
+func (ro *c13Roles) computeHoldIndicators() {
+	nonZero := func(root *ssa.Function) map[FieldID]bool {
+		out := map[FieldID]bool{}
+		seen := map[*ssa.Function]bool{}
+		var walk func(fn *ssa.Function, depth int)
+		walk = func(fn *ssa.Function, depth int) {
+			if fn == nil || seen[fn] || depth > 3 {
+				return
+			}
+			seen[fn] = true
+			allInstrs(fn, func(in ssa.Instruction) {
+				switch x := in.(type) {
+				case *ssa.Store:
+					fa, ok := x.Addr.(*ssa.FieldAddr)
+					if !ok || namedKey(fa.X.Type()) != namedKey(ro.hold) {
+						return
+					}
+					if k, isK := x.Val.(*ssa.Const); isK && (k.IsNil() || k.Value == nil || c13IsConstBool(k, false) || c13IsConstInt(k, 0)) {
+						return
+					}
+					out[fieldIDOfAddr(fa)] = true
+				case ssa.CallInstruction:
+					if cal := staticCallee(x); cal != nil && ro.p.InModule(cal) {
+						walk(cal, depth+1)
+					}
+				}
+			})
+		}
+		walk(root, 0)
+		return out
+	}
+	w, rd := nonZero(ro.methodFn(ro.oc, "Lock")), nonZero(ro.methodFn(ro.oc, "RLock"))
+	ro.holdCtxInd, ro.holdWriterInd = map[FieldID]bool{}, map[FieldID]bool{}
+	for _, f := range c13FieldsOf(ro.hold) {
+		id := c13Fid(f.owner, f.name)
+		switch {
+		case rd[id] && !w[id]:
+			ro.holdCtxInd[id] = true
+		case w[id] && !rd[id]:
+			ro.holdWriterInd[id] = true
+		}
+	}
+	ro.holdCtxInd[ro.holdCtx] = true
 }
